@@ -1,10 +1,252 @@
 """C07 -- score-ranked distance suppression."""
 import z3
+from vfw import sym
+from vfw.sym import SV, SB, ctx, to_z3, real
 from vfw.engine import Contract
+from vfw.models import frames, kernels, npm
 from . import common
+from .c18 import SubMotl, FeatureKeys
 
-CONTRACTS = []
-LEVEL = "exploration"
+XYZ = ("x", "y", "z")
+DIST = z3.Function("pair_dist", z3.IntSort(), z3.IntSort(), z3.RealSort())
+
+
+class PosArr(frames.RowArr):
+    """coordinates of the group's particles; pos[j, :] remembers the row position it was taken from"""
+
+    def __getitem__(self, key):
+        r = super().__getitem__(key)
+        if isinstance(key, tuple) and len(key) == 2 and isinstance(key[0], (SV, int)) and type(r).__name__ == "OA":
+            r.row_index = key[0]
+            r.of = self
+        return r
+
+
+class Group(SubMotl):
+    made = []
+
+    def __init__(self, it, prefix, f, feature):
+        super().__init__(it, prefix, f, feature)
+        self.f, self.feature = f, feature
+        Group.made.append(self)
+
+    def get_coordinates(self):
+        r = self.df.row
+        self.pos = PosArr([r[a] + r["shift_" + a] for a in XYZ], self.space)
+        return self.pos
+
+
+class Accum(frames._Generic):
+    """cleaned_df: the concatenation, over the groups, of the piece appended in the arbitrary iteration"""
+
+    def __init__(self):
+        self.pieces = []
+        self.shape = (SV(ctx().fresh("n_cleaned", "Int")), 20)
+
+
+class PDStub:
+    def __init__(self, real_pd):
+        self._pd = real_pd
+
+    def DataFrame(self, *a, **k):
+        if a or k:
+            raise sym.Unsupported("pd.DataFrame(args) in clean_by_distance")
+        return Accum()
+
+    def concat(self, parts, ignore_index=False, **k):
+        parts = list(parts)
+        if len(parts) == 2 and isinstance(parts[0], Accum):
+            parts[0].pieces.append((parts[1], ignore_index))
+            return parts[0]
+        raise sym.Unsupported("pd.concat form in clean_by_distance")
+
+    def __getattr__(self, k):
+        return getattr(self._pd, k)
+
+
+class GeomStub:
+    """assumed contract of geom.point_pairwise_dist(P[j], P) (its own contract PointPairwiseDist below): element i is the
+    Euclidean distance between rows j and i; as a function of (j, i) it is symmetric and non-negative"""
+    calls = []
+
+    def point_pairwise_dist(self, c1, c2):
+        if not (isinstance(c2, PosArr) and getattr(c1, "of", None) is c2):
+            raise sym.Unsupported("point_pairwise_dist arguments are not (pos[j, :], pos)")
+        GeomStub.calls.append((c1.row_index, c2))
+        pv = frames.RowPos(c2.space).val.t
+        return frames.GVec(SV(DIST(to_z3(c1.row_index), pv)), c2.space)
+
+
+class SuppressSpec(kernels.InvSpec):
+    """invariant of the greedy loop after the k best-ranked particles have been visited"""
+    state = {"temp_keep": "Bool"}
+    ghosts = {"killer": "Int"}  # killer[i]: rank (visit number) of the kept particle that removed particle i
+
+    def __init__(self, perm, d, n):
+        self.p, self.d, self.n = perm, d, n
+
+    def inv(self, k, S, G):
+        keep, kl = S["temp_keep"], G["killer"]
+        sg, rk, d, n = self.p.sigma, self.p.rk, self.d, self.n
+        a, i = z3.Ints("a!v i!v")
+        return [
+            ("visited_kept_particle_has_cleared_its_neighbourhood",
+             z3.ForAll([a, i], z3.Implies(z3.And(a >= 0, a < k, i >= 0, i < n, keep(sg(a)), i != sg(a), DIST(sg(a), i) < d), z3.Not(keep(i))))),
+            ("removed_particle_has_a_kept_earlier_ranked_killer_within_d",
+             z3.ForAll([i], z3.Implies(z3.And(i >= 0, i < n, z3.Not(keep(i))),
+                                       z3.And(kl(i) >= 0, kl(i) < k, kl(i) < rk(i), keep(sg(kl(i))), DIST(sg(kl(i)), i) < d)))),
+        ]
+
+    def ghost_step(self, k, S0, S1, G0):
+        return {"killer": (lambda i, f=G0["killer"]: z3.If(z3.And(S0["temp_keep"](i), z3.Not(S1["temp_keep"](i))), k, f(i)))}
+
+
+class CleanByDistance(Contract):
+    """Motl.clean_by_distance on the real AST: outer loop over groups as an arbitrary iteration, inner greedy loop by invariant"""
+    prop = "C07"
+    module = "cryomotl"
+    qual = "Motl.clean_by_distance"
+    configs = [{"keep_greater": True, "metric": "score", "feature": "tomo_id"}, {"keep_greater": False, "metric": "geom3", "feature": "object_id"}]
+
+    def cfg_name(self, cfg):
+        return f"keep_greater={cfg['keep_greater']},metric={cfg['metric']},group={cfg['feature']}"
+
+    def bind(self, cx, cfg):
+        Group.made.clear()
+        GeomStub.calls.clear()
+        it = common.motl_interp()
+        df = common.fresh_motl_frame(angles=False)
+        m = common.motl_obj(it, df)
+        base_np = it.globals["np"]
+        holder = {"unique_of": None, "perm": None}
+        d = SV(z3.Real("d_cut"))
+        cx.assume(d.t > 0)
+        i, j = z3.Ints("i!d j!d")
+        cx.assume(z3.ForAll([i, j], z3.Implies(i != j, DIST(i, j) != d.t)))  # requires (property quantifier): exact-distance ties excluded
+        cx.axiom("point_pairwise_dist contract: Euclidean distance is symmetric and non-negative (lemma squared_distance_is_symmetric + PointPairwiseDist)",
+                 z3.ForAll([i, j], z3.And(DIST(i, j) == DIST(j, i), DIST(i, j) >= 0)))
+
+        class NPS:
+            def __getattr__(self, k):
+                return getattr(base_np, k)
+
+            @staticmethod
+            def unique(x, *a, **k):
+                holder["unique_of"] = x
+                return FeatureKeys()
+
+            @staticmethod
+            def ones(shape, dtype=None):
+                from vfw.interp import BUILTINS
+                if dtype is not bool and dtype is not BUILTINS["bool"]:
+                    raise sym.Unsupported("np.ones dtype")
+                n = shape[0] if isinstance(shape, tuple) else shape
+                return kernels.FnArr.const(True, n, "Bool", "temp_keep")
+
+        def inv_factory(perm, env):
+            holder["perm"] = perm
+            return SuppressSpec(perm, d.t, to_z3(perm.n))
+        cx.inv_spec_factory = inv_factory
+        it.globals["np"] = NPS()
+        it.globals["pd"] = PDStub(it.globals["pd"])
+        it.globals["geom"] = GeomStub()
+        holder["reset"] = []
+
+        def mk_group(self, f, feature_id="tomo_id", reset_index=False, **k):
+            holder["reset"].append(reset_index)
+            return Group(it, "grp_", f, feature_id)
+        it.contracts["Motl.get_motl_subset"] = mk_group
+        fn = it.function("Motl.clean_by_distance").bind(m)
+        def thunk():
+            Group.made.clear()
+            GeomStub.calls.clear()
+            holder["reset"] = []
+            holder["perm"] = holder["unique_of"] = None
+            fn(d, cfg["feature"], metric_id=cfg["metric"], keep_greater=cfg["keep_greater"])
+            # per-execution record (paths are re-executions; post runs after all of them)
+            return dict(holder, groups=list(Group.made), calls=list(GeomStub.calls), out=m.df)
+        return thunk, {"m": m, "df": df, "d": d, "holder": holder}
+
+    def post(self, cx, cfg, inp, res):
+        m, h, d = inp["m"], res, inp["d"].t
+        out = h["out"]
+        made, calls = h["groups"], h["calls"]
+        cl = []
+        uo = h["unique_of"]
+        uv = uo.val if isinstance(uo, frames.GVec) else (uo.vals[0] if isinstance(uo, frames.RowArr) and len(uo.vals) == 1 else None)
+        cl.append(("groups_are_the_distinct_values_of_the_grouping_field", z3.BoolVal(uv is not None and uo.space is inp["df"].space and z3.eq(to_z3(uv), to_z3(inp["df"].row[cfg["feature"]])))))
+        ok = isinstance(out, Accum) and len(out.pieces) == 1 and len(made) == 1
+        cl.append(("result_is_the_concatenation_of_one_piece_per_group", z3.BoolVal(bool(ok))))
+        ex = getattr(cx, "loop_exit", {}).get("greedy")
+        if not ok or ex is None or h["perm"] is None:
+            cl.append(("greedy_loop_verified_by_invariant", z3.BoolVal(False)))
+            return cl
+        g = made[0]
+        piece, ign = out.pieces[0]
+        cl.append(("group_is_selected_by_the_grouping_field_with_index_reset", z3.BoolVal(g.feature == cfg["feature"] and h["reset"] == [True] and bool(ign))))
+        keep, kl = ex["S"]["temp_keep"], ex["G"]["killer"]
+        p = h["perm"]
+        n = to_z3(g.space.n)
+        pv = frames.RowPos(g.space).val.t
+        okp = isinstance(piece, frames.GFrame) and all(k in piece.row and z3.eq(to_z3(piece.row[k]), to_z3(g.df.row[k])) for k in g.df.row)
+        cl.append(("kept_rows_carry_the_groups_unchanged_fields", z3.BoolVal(bool(okp))))
+        if okp:
+            cl.append(("piece_is_exactly_the_rows_still_marked_keep", z3.Implies(z3.And(pv >= 0, pv < n), sym.to_bool(piece.present) == keep(pv))))
+        a, b, i = z3.Ints("a!p b!p i!p")
+        score = p.key
+        better = (lambda w, x: score(w) >= score(x)) if cfg["keep_greater"] else (lambda w, x: score(w) <= score(x))
+        cl += [
+            ("score_used_for_ranking_is_the_metric_column", z3.ForAll([i], score(i) == real(z3.substitute(to_z3(g.df.row[cfg["metric"]]), (pv, i)))), ()),
+            ("no_two_remaining_particles_closer_than_d",
+             z3.ForAll([a, b], z3.Implies(z3.And(a >= 0, a < n, b >= 0, b < n, a != b, keep(a), keep(b)), DIST(a, b) >= d)), ()),
+            ("removed_particle_within_d_of_a_remaining_one_with_equal_or_better_score",
+             z3.ForAll([i], z3.Implies(z3.And(i >= 0, i < n, z3.Not(keep(i))),
+                                       z3.And(p.sigma(kl(i)) >= 0, p.sigma(kl(i)) < n, keep(p.sigma(kl(i))), DIST(p.sigma(kl(i)), i) < d, better(p.sigma(kl(i)), i)))), ()),
+            ("distances_are_taken_within_the_group_only", z3.BoolVal(all(c[1] is g.pos for c in calls))),
+        ]
+        return cl
+
+    def cross(self, cfg, paths):
+        return [("some_path_suppresses_neighbours", [], z3.BoolVal(len(paths) >= 2))]
+
+    def replay(self, clause, model, cfg):
+        from rtc import c07 as r
+        return r.replay_clean(cfg)
+
+
+class PointPairwiseDist(Contract):
+    """geom.point_pairwise_dist(p, P): element i is >= 0 and its square is |p - P_i|^2"""
+    prop = "C07"
+    module = "geom"
+    qual = "point_pairwise_dist"
+
+    def bind(self, cx, cfg):
+        it = common.geom_interp()
+        sp = frames.Space(tag="P")
+        P = frames.RowArr([SV(z3.Real(f"P_{a}")) for a in XYZ], sp)
+        p = npm.obj([SV(z3.Real(f"p_{a}")) for a in XYZ])
+        f = it.function("point_pairwise_dist")
+        return (lambda: f(p, P)), {"p": p, "P": P}
+
+    def post(self, cx, cfg, inp, res):
+        ok = isinstance(res, frames.GVec) and res.space is inp["P"].space
+        cl = [("one_distance_per_row", z3.BoolVal(bool(ok)))]
+        if ok:
+            v = real(to_z3(res.val))
+            sq = sum((real(to_z3(inp["p"][k])) - real(to_z3(inp["P"].vals[k]))) ** 2 for k in range(3))
+            cl += [("distance_non_negative", v >= 0), ("distance_squared_is_sum_of_squared_differences", v * v == sq, ("poly",))]
+        return cl
+
+
+def lemmas(ck):
+    a, b = [z3.Real(f"a{k}") for k in range(3)], [z3.Real(f"b{k}") for k in range(3)]
+    ck.lemma("squared_distance_is_symmetric", [], sum((a[k] - b[k]) ** 2 for k in range(3)) == sum((b[k] - a[k]) ** 2 for k in range(3)), tactics=("poly",))
+    x, y, s = z3.Reals("x y s")
+    ck.lemma("non_negative_roots_of_equal_squares_are_equal", [x >= 0, y >= 0, x * x == s, y * y == s], x == y, tactics=())
+
+
+CONTRACTS = [CleanByDistance, PointPairwiseDist]
+LEVEL = "other"
 EXPLANATION = ("bounded run-time contract: separation, domination by an at-least-as-good remaining particle of the same group, group isolation and row preservation for Motl.clean_by_distance; "
                "threshold, separation, domination, score / 1-based position / angle lookup for tmana.scores_extract_particles on plateau-free maps")
 ASSUMPTIONS = ["exact-distance ties are excluded by tolerance 1e-9 as in the property's quantifier"]
@@ -13,6 +255,7 @@ ASSUMPTIONS = ["exact-distance ties are excluded by tolerance 1e-9 as in the pro
 def run(ck):
     for C in CONTRACTS:
         ck.run_contract(C())
+    lemmas(ck)
     from rtc import c07 as r
     n = 60 if ck.tier == "quick" else 1500
     ck.bounded_run("suppression", r.gen_cases(ck.seed, n, 24 if ck.tier == "quick" else 40), r.run_case, ref="rtc.c07:run_case",
